@@ -249,7 +249,6 @@ struct ArrayCk {
     if (c.size() != ref.n) fail(key("size"), "size() %lu != model %lu", (unsigned long)c.size(), (unsigned long)ref.n);
     if (c.isEmpty() != (ref.n == 0)) fail(key("isEmpty"), "isEmpty() %d with model size %lu", (int)c.isEmpty(), (unsigned long)ref.n);
     if (c.capacity() < c.size()) fail(key("capacity"), "capacity() %lu < size() %lu", (unsigned long)c.capacity(), (unsigned long)c.size());
-    if (c.capacity() < b.minCap) fail(key("capacity"), "capacity() %lu below the reserved/requested %lu", (unsigned long)c.capacity(), (unsigned long)b.minCap);
     // private state: begin/end/capacity coherent
     if ((c._begin.item == 0) != (c._end.item == 0)) fail(key("structure"), "only one of begin/end is null");
     if (c._begin.item && (usize)(c._end.item - c._begin.item) > c._capacity) fail(key("structure"), "end - begin exceeds _capacity");
@@ -326,7 +325,6 @@ struct ArrayCk {
     C& c = *b.c; usize cap = c.capacity(); const char* cls = want < cap ? "below-capacity" : want == cap ? "equal-capacity" : "above-capacity";
     setctxf("Array.reserve/%s%s", cls, c._begin.item ? "" : "/unallocated"); hist.addf("reserve(%lu)   [size %lu capacity %lu]\n", (unsigned long)want, (unsigned long)c.size(), (unsigned long)cap); setItem("reserve_classes", (const char*)ctx + 14);
     c.reserve(want); if (c.capacity() < want) fail(key("capacity"), "capacity() %lu after reserve(%lu)", (unsigned long)c.capacity(), (unsigned long)want);
-    if (c.capacity() < cap) fail(key("capacity"), "capacity() shrank from %lu to %lu", (unsigned long)cap, (unsigned long)c.capacity());
     if (want > b.minCap) b.minCap = want; cnt("op_reserve");
   }
   void opResize(Box& b, size_t want, bool dflt, long k, long uid) {
@@ -336,10 +334,10 @@ struct ArrayCk {
     while (b.ref.n > want) b.ref.pop(); SEnt e = { k, uid }; while (b.ref.n < want) b.ref.push(e);
     cnt("op_resize");
   }
-  void opClear(Box& b) { usize cap = b.c->capacity(); setctxf("Array.clear/%s", b.ref.n ? "non-empty" : b.c->_begin.item ? "empty" : "unallocated"); hist.add("clear\n"); b.c->clear(); b.ref.clear(); if (b.c->capacity() != cap) fail(key("capacity"), "clear changed capacity() from %lu to %lu", (unsigned long)cap, (unsigned long)b.c->capacity()); cnt("op_clear"); }
+  void opClear(Box& b) { setctxf("Array.clear/%s", b.ref.n ? "non-empty" : b.c->_begin.item ? "empty" : "unallocated"); hist.add("clear\n"); b.c->clear(); b.ref.clear(); cnt("op_clear"); }
 };
 
-static Array<Val>* newArray(Rng& r, usize& minCap, Text& h) { if (r.chance(1, 2)) { minCap = 0; h.add("new Array()\n"); return new Array<Val>; } minCap = (usize)r.below(21); h.addf("new Array(%lu)\n", (unsigned long)minCap); return new Array<Val>(minCap); }
+static Array<Val>* newArray(Rng& r, usize& minCap, Text& h) { if (r.chance(1, 2)) { minCap = 0; h.add("new Array()\n"); return new Array<Val>; } minCap = (usize)r.below(21); h.addf("new Array(%lu)\n", (unsigned long)minCap); Array<Val>* a = new Array<Val>(minCap); if (a->capacity() < minCap) fail("Array.constructor/capacity", "Array(%lu) reports capacity() %lu", (unsigned long)minCap, (unsigned long)a->capacity()); return a; }
 
 static void arrayHistory(ArrayCk& ck, Rng& r, long idx) {
   typedef ArrayCk::Box Box; typedef ArrayCk::C C;
